@@ -248,7 +248,15 @@ func sampleCase(c *Case, res map[string]interface{}) interface{} {
 // runProp wires a generator and a checker into rapid with stats, triage and replay.
 func runProp(t *testing.T, prop string, gen func(*rapid.T) *Case, check func(*Case) ([]hx.Discrepancy, *hx.Expect, map[string]interface{}, *World),
 	classes func(*Case, *hx.Expect) (bool, []string)) {
-	run := hx.NewRun(prop)
+	runPropWith(t, prop, gen, check, classes, nil)
+}
+
+// runPropWith continues an existing stats collector (used when a check has an enumerated part first).
+func runPropWith(t *testing.T, prop string, gen func(*rapid.T) *Case, check func(*Case) ([]hx.Discrepancy, *hx.Expect, map[string]interface{}, *World),
+	classes func(*Case, *hx.Expect) (bool, []string), run *hx.Run) {
+	if run == nil {
+		run = hx.NewRun(prop)
+	}
 	defer func() {
 		listRepMu.Lock()
 		for k, v := range ListRepCount {
